@@ -219,7 +219,9 @@ Section Proofs.
     convert_dict fn p d maps = fold_left (step fn p) (skipn (Z.to_nat (z - 1)) maps) (Ok d).
   Proof.
     intros Hv Hz. unfold convert_dict, start_index. unfold has_version in Hv. rewrite Hv, p_offset. simpl.
-    unfold py_slice_from. destruct (0 <=? z - 1) eqn:E; [reflexivity|]. apply Z.leb_gt in E. lia.
+    unfold py_slice_from. destruct (0 <=? z - 1) eqn:E; [|apply Z.leb_gt in E; lia].
+    destruct (Z.of_nat (length maps) <=? z - 1) eqn:E2; [|reflexivity].
+    apply Z.leb_le in E2. rewrite skipn_all2 by lia. reflexivity.
   Qed.
 
   Lemma convert_dict_version d maps z d' :
